@@ -160,7 +160,7 @@ def run(ctx):
         has_id = z3.Bool(f'has_id{i}')
         oid = z3.BitVec(f'id{i}', 16)
         c.set(o, 'ty', ty)
-        c.set(o, 'init', Agg('Option', {'Some': [0], 'None': []}, disc=z3.If(has_init, z3.BitVecVal(1, 64), z3.BitVecVal(0, 64))))
+        c.set(o, 'init', Agg('Option', {'Some': [i], 'None': []}, disc=z3.If(has_init, z3.BitVecVal(1, 64), z3.BitVecVal(0, 64))))
         c.set(o, 'id', Agg('Option', {'Some': [oid], 'None': []}, disc=z3.If(has_id, z3.BitVecVal(1, 64), z3.BitVecVal(0, 64))))
         assume.append(z3.Or([ty == ty_h[t] for t in TYPES]))
         holes.append((ty, has_init, has_id, oid))
@@ -254,6 +254,11 @@ def run(ctx):
         k2, t2, _ = ctx.gen_tokens(src_c, {})
         real = decode_overrides(t2) if k2 == 'ok' else None
         ctx.report('C12/compute-only', f'compute-only module with overrides: decoded {ovc and ovc["fields"]}', {'wgsl': src_c}, real is None or [f[0] for f in real['fields']] != ['n', 'flag', 'gain'])
+    rep, det = native_shared_default(ctx)      # (the symbolic skeleton gives every default its own expression handle; this shape is concrete)
+    if rep:
+        ctx.report('C12/native-shared-default', f'overrides sharing one default expression: optional entries {det.get("real")}, expected {det.get("expected")}', det, True, det)
+    else:
+        ctx.replayed_ok += 1
     ctx.extra['violations_by_rule'] = seen
     ctx.extra['numeric_lemma'] = {k: ('holds (unsat)' if v is None else 'FAILS') for k, v in lem.items()}
 
@@ -330,7 +335,27 @@ def replay(ctx, v):
     return bool(failed), det
 
 
+SHARED_DEFAULT = ('const DEFAULT_TILE: u32 = 8u;\noverride tile_x: u32 = DEFAULT_TILE;\noverride tile_y: u32 = DEFAULT_TILE;\noverride tile_z: u32 = 8u;\n'
+                  '@vertex fn vs() -> @builtin(position) vec4<f32> { return vec4<f32>(f32(tile_x + tile_y + tile_z)); }\n@fragment fn fs() {}\n')
+
+
+def native_shared_default(ctx):
+    """overrides whose defaults are the SAME constant expression (one initialiser handle in naga) are still separate entries of the map"""
+    kind, toks, _ = ctx.gen_tokens(SHARED_DEFAULT, {})
+    if kind != 'ok':
+        return False, {'real': f'{kind}: {toks}'}
+    ov = decode_overrides(toks)
+    got = [(n, k) for n, k, _ in ov['optional']] if ov else None
+    want = [('tile_x', 'tile_x'), ('tile_y', 'tile_y'), ('tile_z', 'tile_z')]
+    return got != want, {'wgsl': SHARED_DEFAULT, 'real': got, 'expected': want}
+
+
 def native(ctx):
+    rep, det = native_shared_default(ctx)
+    if rep:
+        ctx.report('C12/native-shared-default', f'overrides sharing one default expression: optional entries {det.get("real")}, expected {det.get("expected")}', det, True, det)
+    else:
+        ctx.replayed_ok += 1
     n = 40 if ctx.tier == 'quick' else 400
     done = False
     for i in range(n):
